@@ -156,8 +156,13 @@ def assumptions_of(prop_file):
         if blk.startswith("Closed under"):
             closed += 1
         elif blk.startswith("Axioms:"):
-            for m in re.finditer(r"^([A-Za-z_][\w.']*)\s*:", blk[len("Axioms:"):], re.M):
-                axioms.add(m.group(1))
+            # one entry per axiom: its name at column 0 (the type may follow on indented lines); stop at compiler chatter
+            for line in blk[len("Axioms:"):].split("\n"):
+                if line.startswith(("File ", "Warning", "[")) or line.startswith("value "):
+                    break
+                m = re.match(r"^([A-Za-z_][\w.']*)", line)
+                if m:
+                    axioms.add(m.group(1))
     return dict(ok=p.returncode == 0, axioms=sorted(axioms), closed=closed, raw=out[-3000:])
 
 
